@@ -164,11 +164,14 @@ def run(ctx):
             n = ctx.rng.choice([5000, 20000, 1000]); cl = ctx.rng.choice([0.9999, 0.999999, 1 - 1e-9])
         x = ctx.rng.choice([1, 1, 2, n - 1, n - 1, n - 2, 3, n - 3]); alt = ctx.rng.choice(ALTS)
         a_ = (1 - cl) / 2 if alt == "two-sided" else 1 - cl
-        r = guarded(utils.binom_conf_interval, n, x, cl, alt)
+        xkw = {}
+        if ctx.rng.random() < 0.4:      # an explicit start far from the limit together with a moderate iteration budget (enough for the solver itself)
+            xkw = {"p": ctx.rng.choice([0.0, 0.5, 1.0]), "maxiter": ctx.rng.choice([30, 40, 60])}; ctx.count("far-start-with-moderate-maxiter")
+        r = guarded(utils.binom_conf_interval, n, x, cl, alt, **xkw)
         want_lo = 0.0 if alt == "upper" else (-math.expm1(math.log1p(-a_) / n) if x == 1 else float(_beta.ppf(a_, x, n - x + 1)))
         want_hi = 1.0 if alt == "lower" else (math.exp(math.log1p(-a_) / n) if x == n - 1 else float(_beta.ppf(1 - a_, x + 1, n - x)))
         ctx.case(("extreme-limits", n, x, cl, alt), True); ctx.count("limits-next-to-0-or-1")
-        det = {"call": "binom_conf_interval", "n": n, "x": x, "cl": cl, "alternative": alt, "expected": [want_lo, want_hi]}
+        det = {"call": "binom_conf_interval", "n": n, "x": x, "cl": cl, "alternative": alt, "kwargs": xkw, "expected": [want_lo, want_hi]}
         tol = lambda w: 1e-10 + 1e-7 * min(w, 1 - w)
         if r[0] != "ok" or abs(float(r[1][0]) - want_lo) > tol(want_lo) or abs(float(r[1][1]) - want_hi) > tol(want_hi):
             det.update({"issue": "limits next to 0 / 1 are not the Clopper-Pearson limits (or the call fails)", "returned": str(r[1:])[:200]})
